@@ -88,7 +88,7 @@ def build_racebin(ctx):
     open(modfile, "w").write(gomod)
     shutil.copy(os.path.join(repo, "go.sum"), os.path.join(workdir, "go.sum"))
     binp = os.path.join(workdir, "racebin")
-    rc, out = _sh(["go", "build", "-race", "-tags", "verif", "-modfile", modfile, "-o", binp, "./cmd/race"], cwd=hdir, env=goenv, timeout=1200)
+    rc, out = _sh(["go", "build", "-race", "-modfile", modfile, "-o", binp, "./cmd/race"], cwd=hdir, env=goenv, timeout=1200)
     return rc, out, binp
 
 def run_race(ctx, binp, tier, seed, filters=(), reps=None, tag="race"):
